@@ -876,6 +876,27 @@ def check_C13(A: Analysis, tier):
                                     f"{c!r}: if that removal fails the call still reports success while the file stays stored", site_loc(A, ev))
     rules.append(rg)
 
+    rh = Rule("C13", "C13.h", "no `return`, `break` or `continue` inside a `finally` block: it silently discards the exception in "
+              "flight (an I/O error would turn into a normal completion)", floor=1)
+    nfin = 0
+    for f in [fn for fn in A.p.funcs.values() if fn.module.name == "filehashstore"]:
+        for t in func_nodes(f, ast.Try):
+            if not t.finalbody:
+                continue
+            nfin += 1
+            rh.ob()
+            for s_ in t.finalbody:
+                for n in ast.walk(s_):
+                    if isinstance(n, (ast.Return, ast.Break, ast.Continue)):
+                        # a break/continue of a loop that lies entirely inside the finally is harmless
+                        loops = [l for l in ast.walk(s_) if isinstance(l, (ast.For, ast.While)) and any(n is x for x in ast.walk(l))]
+                        if isinstance(n, (ast.Break, ast.Continue)) and loops:
+                            continue
+                        rh.fail(f, n, f"`{norm(n)}` inside a finally block of {f.qual} discards any exception that was propagating: a failed read/write "
+                                "would end in a normal completion", A.p.loc(f, n))
+    rh.inst(f"{nfin} finally block(s) in filehashstore.py")
+    rules.append(rh)
+
     re_ = Rule("C13", "C13.e", "no call completes normally out of a handler that caught a library (I/O) error, "
                "except through a tabled swallower", floor=8)
     for m in ("th",):
